@@ -353,7 +353,7 @@ def c02_entry(rng, fmt, k, prev_regs):
     if typ in ('chr', 'blk'):
         mx = {'ustar': 262143, 'gnutar': 262143, 'odc': 255, 'bin': 255, 'pwb': 255}.get(fmt, 2 ** 20)
         d['rdevmajor'] = str(rng.choice([0, 1, 8, 255, mx])); d['rdevminor'] = str(rng.choice([0, 3, 255, mx if fmt not in ('odc',) else 255]))
-    return d
+    return add_extras(rng, fmt, d)
 
 
 FILTERS = ['gzip', 'bzip2', 'xz', 'zstd', 'lz4', 'compress', 'uuencode', 'b64encode']
@@ -385,6 +385,309 @@ def gen_c02_cases(rng, tier):
             ops += ['done']
             yield Case(f'c02-{fmt}-{i}', ops, {'fmt': fmt})
 
+
+# --------------------------------------------------------------------------
+# metadata beyond the stat fields: further times, sparse maps, ACLs, extended attributes
+
+def sparse_map_text_len(regions, size):
+    """Length of the GNU.sparse 1.0 map text: the count line and two lines per region, with the empty
+    region at EOF the writers append when the last region stops short of it."""
+    r = list(regions)
+    if not r or r[-1][0] + r[-1][1] < size:
+        r.append((size, 0))
+    return len(f'{len(r)}\n') + sum(len(f'{o}\n{n}\n') for o, n in r)
+
+
+def sparse_regions(rng, size, n=None):
+    """Non-touching data regions inside [0, size)."""
+    if size < 4:
+        return []
+    n = n or rng.choice([1, 2, 3, 8])
+    cuts = sorted(rng.sample(range(0, size), min(2 * n, size)))
+    regs = [(cuts[i], cuts[i + 1] - cuts[i]) for i in range(0, len(cuts) - 1, 2)]
+    out = []
+    for o, l in regs:
+        if out and out[-1][0] + out[-1][1] >= o:
+            continue
+        if l > 0:
+            out.append((o, l))
+    if rng.random() < 0.3 and out:
+        o, l = out[-1]; out[-1] = (o, size - o)        # last region reaches EOF: no terminator
+    return out
+
+
+def sparse_for_text_len(rng, target):
+    """(size, regions) whose map text is exactly `target` bytes long."""
+    for _ in range(20000):
+        n = rng.randrange(max(2, target // 12), max(3, target // 5))
+        stride = rng.randrange(8, max(9, min(400, 60000 // n)))
+        ln = rng.randrange(1, stride)
+        start = rng.choice([0, 0, rng.randrange(0, 3000)])
+        regs = [(start + k * stride, ln) for k in range(n)]
+        size = regs[-1][0] + ln + rng.choice([0, 1, 77, 1000])
+        if size > 65000:
+            continue
+        if sparse_map_text_len(regs, size) == target:
+            return size, regs
+    return None
+
+
+POSIX_NAMES = ['usr', 'grp', 'бин', 'a b', '']
+
+
+def acl_posix(rng, default=False, access=True):
+    items = []
+    if access:
+        seen = set()
+        for k in range(rng.choice([1, 1, 2, 3])):
+            t = rng.choice(['u', 'g'])
+            i = rng.choice([0, 1, 77 + k, 65534, 2 ** 31 - 1])
+            if (t, i) in seen:
+                continue              # one entry per (tag, id): a second one replaces the first
+            seen.add((t, i))
+            items.append(f"a:{t}:{rng.randrange(8)}:{i}:{hx(rng.choice(POSIX_NAMES[:4]) + str(k))}")
+        items.append(f'a:m:{rng.randrange(8)}:-1:-')
+    if default:
+        items += [f'd:uo:{rng.randrange(8)}:-1:-', f'd:go:{rng.randrange(8)}:-1:-', f'd:o:{rng.randrange(8)}:-1:-']
+        if rng.random() < 0.7:
+            items += [f"d:u:{rng.randrange(8)}:{rng.choice([1, 500])}:{hx('du')}", f'd:m:{rng.randrange(8)}:-1:-']
+            if rng.random() < 0.5:
+                items.append(f"d:g:{rng.randrange(8)}:{rng.choice([2, 600])}:{hx('dg')}")
+    return sorted(set(items))
+
+
+NFS4_PERMS = [0x1, 0x8, 0x10, 0x20, 0x40, 0x80, 0x100, 0x200, 0x400, 0x800, 0x1000, 0x2000, 0x4000, 0x8000]
+NFS4_FLAGS = [0x01000000, 0x02000000, 0x04000000, 0x08000000, 0x10000000]
+
+
+def acl_nfs4(rng):
+    items = []
+    for k in range(rng.choice([1, 2, 4, 6])):
+        ty = rng.choice('AADU' if k else 'AD')
+        tag = rng.choice(['uo', 'go', 'e', 'u', 'g'])
+        perm = 0
+        for b in NFS4_PERMS:
+            if rng.random() < 0.4:
+                perm |= b
+        if perm == 0:
+            perm = 0x8
+        for b in NFS4_FLAGS:
+            if rng.random() < 0.2:
+                perm |= b
+        if ty in 'UL':
+            perm |= rng.choice([0x20000000, 0x40000000])
+        ident = f"{rng.choice([1, 77, 1000 + k])}:{hx('n' + str(k))}" if tag in ('u', 'g') else '-1:-'
+        items.append(f'{ty}:{tag}:{perm}:{ident}')
+    return sorted(set(items))
+
+
+def xattrs(rng):
+    items = {}
+    for k in range(rng.choice([1, 1, 2, 5])):
+        name = rng.choice(['user.k', 'user.mime_type', 'security.selinux', 'trusted.x', 'user.Я', 'com.apple.FinderInfo']) + str(k)
+        n = rng.choice([0, 1, 3, 32, 33, 100, 511, 512, 513, 3000])
+        val = bytes(rng.randrange(256) for _ in range(n)) if rng.random() < 0.6 else bytes(rng.choice(b'abc xyz=\n') for _ in range(n))
+        items[hx(name)] = hx(val)
+    return sorted(f'{k}:{v}' for k, v in items.items())
+
+
+def add_times(rng, fmt, d, p=0.5):
+    """atime/ctime/btime inside the format's time range, each independently present or absent."""
+    lo, hi = MT_RANGE[fmt]
+    for k in ('atime', 'ctime', 'btime'):
+        if rng.random() < p:
+            v = pick_border(rng, max(lo, 0), hi)
+            ns = rng.choice([0, 0, 1, 100, 999999999, 123456789, 500000000])
+            d[k] = f'{v}.{ns}' if ns else str(v)
+    return d
+
+
+def add_extras(rng, fmt, d):
+    """Optional metadata on an otherwise representable entry (every format gets it: the formats that
+    carry a field must return it, the others must still return the rest of the entry unchanged)."""
+    if rng.random() < 0.45:
+        add_times(rng, fmt, d)
+    if rng.random() < 0.12:
+        d['mtime'] = '-'; d.pop('mtimens', None)
+    typ = d['type']
+    if typ == 'reg' and 'hard' not in d and int(d.get('size', '0')) >= 4 and 'body' in d and rng.random() < 0.3:
+        size = int(d['size'])
+        regs = sparse_regions(rng, size)
+        if regs:
+            d['sparse'] = ','.join(f'{o}:{n}' for o, n in regs)
+            d['body'] = d['body'].split(':')[0] + f':{size}'
+    if typ in ('reg', 'dir') and 'hard' not in d and rng.random() < 0.3:
+        if rng.random() < 0.3:
+            items = acl_nfs4(rng)
+        else:
+            dflt = typ == 'dir' and rng.random() < 0.7
+            items = acl_posix(rng, default=dflt, access=(not dflt) or rng.random() < 0.7)
+        d['acl'] = ','.join(items)
+    if typ in ('reg', 'dir', 'lnk') and 'hard' not in d and rng.random() < 0.3:
+        d['xattr'] = ','.join(xattrs(rng))
+    return d
+
+
+# names whose UTF-16 form has units with a 0x2F / 0x5C / 0x00 byte in either half, two- and three-byte
+# UTF-8, combining marks, a supplementary-plane character
+UNI_NAMES = ['ДляЯны', 'Яя', 'įĀŜ', 'ĀĀ', 'ќ.ѯ', '中丯尀', '⼀⽯', '尯', 'ét́', 'naïve', 'ＡＢ', '한글', 'a😀b', 'ÿ', 'Ω/ω', 'ل']
+
+
+def uni_path(rng, k, deep=True, supp=True, combining=True):
+    pool = [n for n in UNI_NAMES if (supp or '😀' not in n) and (combining or '\u0301' not in n)]
+    parts = [rng.choice(pool).replace('/', '') for _ in range(rng.choice([1, 2, 3]) if deep else 1)]
+    parts[-1] = parts[-1] + f'{k:02d}' + rng.choice(['', '.txt', '.Я'])
+    return '/'.join(parts)
+
+
+def gen_meta_cases(rng, tier, mode):
+    """Dimensions the per-field probes do not reach: many entries with optional fields missing at
+    varying positions, sparse maps around the 512-byte borders of their text form, ACLs / xattrs,
+    Unicode names under the reader / writer options that select another name encoding."""
+    reps = 1 if tier == 'quick' else 6
+    for fmt in ALL_FMTS:
+        types = FMT_TYPES[fmt]
+        b1 = ' bilb=1' if needs_bilb1(fmt) else ''
+        # -- many small entries, optional times present in varying positions
+        for n in ([9, 12, 17, 20, 33] if tier != 'quick' else [rng.choice([9, 10, 11, 12]), rng.choice([17, 18, 20, 33])]) * reps:
+            pat = rng.choice(['first8', 'last', 'alt', 'rand', 'one'])
+            ents = []
+            for k in range(n):
+                e = dict(path=hx(f'm{k:02d}' if fmt in ('arbsd', 'arsvr4') else f'e/m{k:02d}'), type='reg', perm='644', uid='0', gid='0',
+                         size=str(k % 3), mtime=str(pick_border(rng, *MT_RANGE[fmt])), dev='5', ino=str(100 + k), nlink='1', body=f'{k}:{k % 3}')
+                if 'dir' in types and rng.random() < 0.15:
+                    e = with_type(e, 'dir', rng); e['path'] = hx(f'e/sub{k:02d}')
+                for fld in ('atime', 'ctime', 'btime', 'mtime'):
+                    on = {'first8': k < 8, 'last': k == n - 1, 'alt': k % 2 == 0, 'rand': rng.random() < 0.5, 'one': k == rng.randrange(n)}[pat]
+                    if fld == 'mtime':
+                        if not on and rng.random() < 0.5:
+                            e['mtime'] = '-'
+                    elif on:
+                        lo, hi = MT_RANGE[fmt]
+                        e[fld] = str(pick_border(rng, max(lo, 0), hi))
+                ents.append(e)
+            extra = 45 if fmt == 'iso9660' else 1
+            ops = [f'open f={fmt}{b1}'] + [ent_line(e) for e in ents] + ['close'] + [f'rd {j}' for j in range(n + extra)] + ['done']
+            yield Case(f'{mode}-{fmt}-many{n}-{pat}', ops, {'fmt': fmt})
+        # -- sparse maps whose text form sits around a 512-byte border
+        if 'reg' in types:
+            for border in (512, 1024):
+                for tlen in range(border - 2, border + 3):
+                    if tier == 'quick' and fmt not in ('pax', 'paxr', 'gnutar') and rng.random() < 0.8:
+                        continue
+                    r = sparse_for_text_len(rng, tlen)
+                    if r is None:
+                        continue
+                    size, regs = r
+                    a, b = good_entry(rng, fmt, 0), good_entry(rng, fmt, 2)
+                    d = good_entry(rng, fmt, 1); d['size'] = str(size); d['body'] = f'{rng.randrange(256)}:{size}'
+                    d['sparse'] = ','.join(f'{o}:{n}' for o, n in regs)
+                    d.pop('chunks', None)
+                    if rng.random() < 0.5:
+                        d['chunks'] = ','.join(str(rng.choice([1, 7, 100, 512, 5000])) for _ in range(2))
+                    ops = [f'open f={fmt}{b1}'] + [ent_line(e) for e in (a, d, b)] + ['close'] + [f'rd {j}' for j in range(8 if fmt == 'iso9660' else 4)] + ['done']
+                    yield Case(f'{mode}-{fmt}-sparsemap{tlen}', ops, {'fmt': fmt})
+        # -- ACLs and extended attributes of every kind on files and directories
+        for r_ in range(3 * reps):
+            ents = []
+            for k in range(rng.choice([1, 2, 3])):
+                typ = rng.choice(['reg', 'dir'] if 'dir' in types else ['reg'])
+                d = with_type(good_entry(rng, fmt, k), typ, rng)
+                if typ == 'dir':
+                    d['path'] = hx(f'd{k}/sub{k}')
+                kind = rng.choice(['access', 'default', 'both', 'both', 'nfs4', 'none'])
+                if kind == 'nfs4':
+                    d['acl'] = ','.join(acl_nfs4(rng))
+                elif kind != 'none':
+                    d['acl'] = ','.join(acl_posix(rng, default=kind in ('default', 'both') and typ == 'dir', access=kind in ('access', 'both') or typ != 'dir'))
+                if rng.random() < 0.6:
+                    d['xattr'] = ','.join(xattrs(rng))
+                ents.append(d)
+            ops = [f'open f={fmt}{b1}'] + [ent_line(e) for e in ents] + ['close'] + [f'rd {j}' for j in range(len(ents) + (8 if fmt == 'iso9660' else 1))]
+            if fmt not in ('mtree',) and rng.random() < 0.5:
+                ops += [f'rewrite f={fmt}{b1}'] + [f'rd2 {j}' for j in range(len(ents) + (8 if fmt == 'iso9660' else 1))]
+            yield Case(f'{mode}-{fmt}-aclx-{r_}', ops + ['done'], {'fmt': fmt})
+        # -- Unicode names, also under the options that select another stored encoding
+        optsets = [('', '')]
+        if fmt == 'iso9660':
+            optsets += [('', 'iso9660:!rockridge'), ('iso9660:joliet=long', 'iso9660:!rockridge'), ('iso9660:!rockridge', '')]
+        if fmt in ('zip', 'pax', 'gnutar', 'v7tar', 'bin', 'pwb'):
+            optsets += [(f'{cs}', f'{cs}') for cs in ('hdrcharset=KOI8-R', 'hdrcharset=CP866', 'hdrcharset=UTF-8')]
+        if fmt == 'pax':
+            optsets += [('hdrcharset=BINARY', '')]
+        for opt, ropt in optsets * reps:
+            if fmt in ('arbsd', 'arsvr4', 'warc', 'v7tar') and False:
+                continue
+            ents = []
+            for k in range(rng.choice([2, 4, 6])):
+                typ = rng.choice([t for t in types if t in ('reg', 'reg', 'dir', 'lnk')] or ['reg'])
+                if typ == 'lnk' and ((opt and fmt in ('bin', 'pwb', 'odc', 'newc')) or '!rockridge' in opt):
+                    typ = 'reg'       # cpio: a link's size is the length of the stored (converted) target; Joliet has no links
+                d = with_type(good_entry(rng, fmt, k), typ, rng)
+                # writers that convert names (to UTF-16, or to UTF-8 under hdrcharset) store them NFC-normalised:
+                # decomposed sequences are left to the formats that keep the bytes (ASSUMPTIONS)
+                nm = uni_path(rng, k, deep=fmt not in ('arbsd', 'arsvr4'), supp=mode == 'c10' or fmt != 'iso9660',
+                              combining=fmt not in ('7zip', 'iso9660', 'xar') and 'hdrcharset' not in opt)
+                if fmt == 'arsvr4':
+                    nm = nm[:6] + f'{k}'
+                if 'KOI8' in opt or 'CP866' in opt:
+                    if mode == 'c02':
+                        nm = rng.choice(['Привет', 'ДляЯны', 'файл']) + f'{k:02d}' + rng.choice(['', '/яЯ.txt'] if fmt not in ('arbsd', 'arsvr4') else [''])
+                d['path'] = hx(nm)
+                if typ == 'lnk':
+                    d['sym'] = hx(rng.choice(['цель/Я', 'tärget', '中丯']) if not ('KOI8' in opt or 'CP866' in opt) else 'цель/Я')
+                ents.append(d)
+            o = f'open f={fmt}{b1}' + (f' opt={opt}' if opt else '') + (f' ropt={ropt}' if ropt else '')
+            ops = [o] + [ent_line(e) for e in ents] + ['close'] + [f'rd {j}' for j in range(len(ents) + (24 if fmt == 'iso9660' else 1))] + ['done']
+            yield Case(f'{mode}-{fmt}-uni-{opt or "dflt"}-{ropt or "dflt"}', ops, {'fmt': fmt})
+
+
+def refusal_candidates(rng, fmt):
+    """Entries of every kind some writer refuses (which ones a given format refuses is for the
+    writer to say: the point is the state it leaves behind)."""
+    base = lambda: good_entry(rng, fmt, 1)
+    C = []
+    d = base(); d['path'] = '-'; C.append(('nopath', d))
+    d = base(); d['path'] = '""'; C.append(('emptypath', d))
+    for t in ('none', 'sock', 'fifo', 'chr', 'lnk', 'dir'):
+        C.append((f'type-{t}', with_type(base(), t, rng)))
+    for n in (16, 101, 256, 600, 1100):
+        d = base(); d['path'] = hx('L' * n); C.append((f'name{n}', d))
+    d = base(); d['path'] = hx('dir/'); C.append(('trailslash', d))
+    d = base(); d['path'] = hx('d/' + 'x' * 300 + '/f'); C.append(('component300', d))
+    d = base(); d['path'] = hx(b'bad\xff\xfename'); C.append(('badutf8', d))
+    d = base(); d['path'] = hx('../up'); C.append(('dotdot', d))
+    for f_, v in (('uid', 2 ** 33), ('gid', 2 ** 21), ('mtime', 2 ** 40), ('mtime', -5), ('ino', 2 ** 40), ('nlink', 70000), ('dev', 2 ** 20)):
+        d = base(); d[f_] = str(v); C.append((f'{f_}-{v}', d))
+    d = with_type(base(), 'lnk', rng); d['sym'] = hx('t' * 300); C.append(('sym300', d))
+    d = base(); d['hard'] = hx('h' * 300); d['size'] = '0'; d.pop('body', None); d.pop('chunks', None); C.append(('hard300', d))
+    d = base(); d['size'] = '-'; d.pop('body', None); d.pop('chunks', None); C.append(('nosize', d))
+    d = base(); d['uname'] = hx(b'u\xff'); C.append(('badutf8-uname', d))
+    return C
+
+
+def gen_refusal_cases(rng, tier):
+    """An accepted member with an odd size (so that the writer owes padding), a candidate for refusal,
+    accepted members again: whatever the writer answers, the archive must read back as the accepted
+    entries."""
+    for fmt in ALL_FMTS * (1 if tier == 'quick' else 4):
+        for lbl, d in refusal_candidates(rng, fmt):
+            if fmt in BYTE_FMTS and lbl == 'emptypath':
+                continue        # the byte-exact models take their pathname from hex; "" has no hex form
+            sizes = rng.sample([1, 3, 5, 511, 513, 1501], 3)
+            ents = []
+            for k, sz in zip((0, 2, 3), sizes):
+                e = good_entry(rng, fmt, k); e['size'] = str(sz); e['body'] = f'{rng.randrange(256)}:{sz}'
+                ents.append(e)
+            d2 = dict(d)
+            if d2.get('path') not in ('-', '""', None):
+                d2['path'] = d2['path'][:-2] + '5a'          # a second candidate under another name (last byte 'Z')
+            seq = [ents[0], d, ents[1]] + ([d2, ents[2]] if rng.random() < 0.5 else [])
+            yield archive_case(f'c10-{fmt}-refuse-{lbl}', fmt, seq,
+                               bpb=rng.choice([None, 512, 0, 1]) if not needs_bilb1(fmt) else rng.choice([None, 512]),
+                               bilb=1 if needs_bilb1(fmt) else rng.choice([None, 1]), nread=len(seq) + (12 if fmt == 'iso9660' else 0))
+
+
 class Codec(Engine):
     name = 'codec'
     extra_cflags = tuple(os.path.join(H, f) for f in INC)
@@ -407,12 +710,13 @@ class Codec(Engine):
             yield from gen_fmt_cases(rng, tier)
             yield from gen_atol_cases(rng, tier)
             yield from gen_pax_cases(rng, tier)
+        import itertools
         if self.mode == 'c02':
-            for c in gen_c02_cases(rng, tier):
+            for c in itertools.chain(gen_c02_cases(rng, tier), gen_meta_cases(rng, tier, 'c02')):
                 if self.bulk or rng.random() < (0.1 if tier == 'quick' else 0.3):
                     yield c
         if self.mode == 'c10':
-            for c in gen_c10_cases(rng, tier):
+            for c in itertools.chain(gen_c10_cases(rng, tier), gen_refusal_cases(rng, tier), gen_meta_cases(rng, tier, 'c10')):
                 # sanitizer build: a sample; plain build: everything
                 if self.bulk or rng.random() < (0.06 if tier == 'quick' else 0.25):
                     yield c
